@@ -71,7 +71,7 @@ def write_replay(prop, sc, v, mod):
     blob = json.dumps(body, indent=1, sort_keys=True)
     h = hashlib.sha1(blob.encode()).hexdigest()[:10]
     name = f"{prop}-{v['clause']}-{h}.json".replace('/', '_')
-    d = os.path.join(sim.VERIF_DIR, 'replays')
+    d = os.environ.get('VERIF_REPLAY_DIR') or os.path.join(sim.VERIF_DIR, 'replays')
     os.makedirs(d, exist_ok=True)
     path = os.path.join(d, name)
     with open(path, 'w') as f:
